@@ -77,6 +77,9 @@ class VariableEnvironment(BaseEnvironment):
         Returns False if the
         variable is not valid.
         """
+        if name in ("", "$"):
+            return False
+
         for count, i in enumerate(name):
             if count == 0 and i == "$":
                 if can_be_sys_var:
